@@ -84,6 +84,13 @@ def gen_dist(seed, shard, n, nuser):
             lon2, lat2 = lon1 + rng.choice([1e-7, 1e-5, 1e-3]), lat1 + rng.choice([0.0, 1e-7, 1e-5])
         elif kind == "far":
             lon2, lat2 = lon1 + 180.0 - rng.choice([0.0, 0.5, 3.0, 10.0]), -lat1 + rng.choice([0.0, 0.5, 3.0])
+        conv = rng.random() if kind not in ("same", "near") else 1.0      # (x % 360 is not exactly congruent to x in floats)
+        if conv < 0.15:
+            lon2 = lon2 % 360.0                      # the second longitude in the 0..360 convention
+        elif conv < 0.25:
+            lon1, lon2 = lon1 % 360.0, lon2 % 360.0  # both
+        elif conv < 0.3:
+            lon1 = lon1 % 360.0
         same = 1 if (lon1 == lon2 and lat1 == lat2) else 0
         ev = {"k": "dist", "ell": name, "kind": kind, "p": [lon1, lat1, lon2, lat2], "a": fx(pa), "f": fx(pf), "same": same,
               "eq": 0, "mer": 0, "gc": 0, "dlon": fx(0), "dint": fx(0), "sig": fx(0), "ff": pf}
